@@ -3,9 +3,11 @@
      u <N> <kinds>                       node universe: N nodes, kinds = one digit per node
      g <r> st=<n:s,..|-> out=<n,..|-> e=<a>b:f,..|->     define register r
      addnode <r> <g> <n> | addedge <r> <g> <a> <b> <f> | mns <r> <g> <n> <s> | merge <r> <g> <h>
+     clonereach <r> <g> <roots|->       CloneReachable
      le <g> <h> | matches <g> <h> | show <g> | chk <g>   queries, one output line each
    Output of `show` has the format of the Go hook's `Dump`. -/
 import Argot.Model.EGraph
+import Argot.Model.EGraphClone
 import Argot.Model.EscCore
 import Std.Data.HashMap
 open Argot.EGraph Argot.EGraph.EGraph
@@ -215,6 +217,14 @@ partial def loop (h : IO.FS.Stream) (s : OState) : IO Unit := do
   | ["callunknown", r, g, as] =>
     match reg g, (as.splitOn ",").mapM String.toNat? with
     | some g, some as => if as.all (· < s.n) then loop h (put r (callUnknown g as)) else do bad; loop h s
+    | _, _ => do bad; loop h s
+  | ["clonereach", r, g, rs] =>
+    match reg g, (if rs = "-" then some [] else (rs.splitOn ",").mapM String.toNat?) with
+    | some g, some rs =>
+      if rs.all (· < s.n) then
+        if g.reachConv rs then loop h (put r (cloneReachable g rs))
+        else do IO.println "clonereach-worklist-not-empty"; loop h s
+      else do bad; loop h s
     | _, _ => do bad; loop h s
   | _ => do bad; loop h s
 
